@@ -75,8 +75,8 @@ def compare(schema, seq, got, lay, data, where=''):
 
 
 # ---- the exportable grammar ----
-INTS = [('Int%d%s%s' % (b, s, e), b // 8, s == 's') for b in (8, 16, 24, 32, 64) for s in 'us' for e in 'bl']
-FLOATS = [('Float%d%s' % (b, e), b // 8) for b in (16, 32, 64) for e in 'bl']
+INTS = [('Int%d%s%s' % (b, s, e), b // 8, s == 's') for b in (8, 16, 24, 32, 64) for s in 'us' for e in 'bln']       # n: the byte order of the host
+FLOATS = [('Float%d%s' % (b, e), b // 8) for b in (16, 32, 64) for e in 'bln']
 ENCS = ['utf8', 'ascii', 'utf16', 'utf_16_le', 'utf32']
 
 
